@@ -15,7 +15,8 @@ THEOREMS = ['C16_partition_overlap', 'C16_weights_nonneg', 'C16_rows_sum_to_one'
             'C16_nan_semantics_strict', 'C16_nan_semantics_skipna', 'C16_periodic_overlap_images',
             'C16_periodic_overlap_full_circle_R', 'C16_longitude_partition', 'C16_longitude_points_cyclic',
             'C16_longitude_rows', 'C16_horizontal_integral_conserved', 'C16_cyclic_points_satisfiable',
-            'C16_longitude_coarse_conserves', 'C16_hyps_satisfiable']
+            'C16_longitude_coarse_conserves', 'C16_hyps_satisfiable',
+            'C16_model_is_source', 'C16_gen_regrid_complete']
 LEVEL = 'proof'
 LEVEL_TEXT = ('machine-checked theorems (Coq) for every number of source/target cells and every sorted boundary list: overlap '
               'partition identity, non-negative weights, unit row sums, constants, range, integral conservation for the vertical '
@@ -28,7 +29,9 @@ LEVEL_NOTE = ('longitude partition/conservation theorems are over R (not every o
               'strictly increasing longitudes whose cyclic gaps are all < period/2 (so >= 3 nodes; 2-node grids are degenerate '
               'in the code); these hypotheses are re-checked per case as table obligations H_lon_gaps / H_lon_cyclic. sin enters '
               'the field-generic latitude theorems as monotone tables (table obligations), the R versions use the real sin. '
-              'Theorems are about the model Model/Regrid.v, tied to the code by differential correspondence; float rounding, '
+              'Theorems are about the model Model/Regrid.v, tied to the code twice: the scalar kernels (_align_phase_with, periodic bounds, '
+              '_periodic_overlap, _interval_overlap, the _latitude_overlap expression) are regenerated from the AST on every run '
+              '(Gen/RegridSrc.v; C16_model_is_source), and by differential correspondence; float rounding, '
               'batch dimensions and einsum precision flags are not modelled.')
 TECHNIQUE = 'interactive proof (Coq) + extracted-model differential testing + property oracles'
 
